@@ -8,20 +8,34 @@ from depccg.cat import Category
 ERR = {'AttributeError': 'AttrErr', 'KeyError': 'KeyErr', 'AssertionError': 'AssertErr', 'IndexError': 'IndexErr',
        'TypeError': 'TypeErr', 'RuntimeError': 'Twice'}
 
-PRE = '''From Coq Require Import List NArith Bool.
+_PRE_HEAD = '''From Coq Require Import List NArith Bool.
 Import ListNotations.
-Require Import Cat CatFacts Unify GramPrims GenTables GenEn GenJa GenGuess.
+Require Import Cat CatFacts Unify GramPrims GenTables %s.
 Open Scope N_scope.
 Definition mk c a b h := {| rcat := c; op_string := a; op_symbol := b; head_is_left := h |}.
 Fixpoint list_eqb {A} (e : A -> A -> bool) (a b : list A) := match a, b with [], [] => true | x :: a', y :: b' => e x y && list_eqb e a' b' | _, _ => false end.
 Definition err_eqb (a b : err) : bool := match a, b with KeyErr, KeyErr | AttrErr, AttrErr | AssertErr, AssertErr | Twice, Twice | TypeErr, TypeErr | IndexErr, IndexErr => true | _, _ => false end.
 Definition res_eqb {A} (e : A -> A -> bool) (a b : res A) : bool := match a, b with Ok_ x, Ok_ y => e x y | Err x, Err y => err_eqb x y | _, _ => false end.
-Definition BinEn x y s e := res_eqb (list_eqb cres_eqb) (GenEn.apply_binary_rules x y s) e.
-Definition BinJa x y s e := res_eqb (list_eqb cres_eqb) (GenJa.apply_binary_rules x y s) e.
-Definition UnEn x t e := res_eqb (list_eqb cres_eqb) (GenEn.apply_unary_rules x t) e.
-Definition UnJa x t e := res_eqb (list_eqb cres_eqb) (GenJa.apply_unary_rules x t) e.
-Definition Guess rs t e := cres_eqb (GenGuess.guess rs t) e.
 '''
+_PRE_DEFS = {
+    'GenEn': '''Definition BinEn x y s e := res_eqb (list_eqb cres_eqb) (GenEn.apply_binary_rules x y s) e.
+Definition UnEn x t e := res_eqb (list_eqb cres_eqb) (GenEn.apply_unary_rules x t) e.
+''',
+    'GenJa': '''Definition BinJa x y s e := res_eqb (list_eqb cres_eqb) (GenJa.apply_binary_rules x y s) e.
+Definition UnJa x t e := res_eqb (list_eqb cres_eqb) (GenJa.apply_unary_rules x t) e.
+''',
+    'GenGuess': '''Definition Guess rs t e := cres_eqb (GenGuess.guess rs t) e.
+''',
+}
+
+
+def pre(*mods):
+    """the preamble of a case file that uses only the named generated files (a check must not depend on the translation of
+    a grammar file it is not about)"""
+    return _PRE_HEAD % ' '.join(mods) + ''.join(_PRE_DEFS[m] for m in mods)
+
+
+PRE = pre('GenEn', 'GenJa', 'GenGuess')
 
 
 def table_preamble(cats, name='tbl'):
